@@ -15,7 +15,8 @@ def build_generator(ctx):
     genbin = os.path.join(ctx["work"].dir, "participle-gen")
     if os.path.exists(genbin):
         return genbin
-    rc, out = m.run(["go", "build", "-o", genbin, "."], cwd="/repo/cmd/participle", timeout=900)
+    genenv = dict(m.GOENV, GOFLAGS="-mod=mod")
+    rc, out = m.run(["go", "build", "-o", genbin, "."], cwd=os.path.join(m.REPO, "cmd/participle"), env=genenv, timeout=900)
     if rc != 0:
         m.inconclusive("cannot build /repo/cmd/participle (the lexer generator)", out)
     return genbin
@@ -159,7 +160,7 @@ def stage_fuzz(ctx, base_env):
     cache = os.path.join(work.dir, "fuzzcache")
     env = dict(m.GOENV)
     env.update(base_env)
-    env.update({"VERIF_FUZZ": "1", "VERIF_SHARD": "fuzz", "GOFLAGS": "-mod=mod"})
+    env.update({"VERIF_FUZZ": "1", "VERIF_SHARD": "fuzz"})
     cmd = ["go", "test", "-vet=off", "./props", "-run", "^$", "-fuzz", "^Fuzz%s$" % pid, "-fuzztime", fuzztime,
            "-test.fuzzcachedir", cache]
     t0 = time.time()
